@@ -326,6 +326,9 @@ func b01(b bool) string {
 }
 
 func main() {
+	if len(os.Args) >= 3 && os.Args[1] == "callergen" {
+		os.Exit(callergen(os.Args[2]))
+	}
 	if len(os.Args) >= 5 && os.Args[1] == "caller" {
 		os.Exit(caller(os.Args[2], os.Args[3], os.Args[4]))
 	}
